@@ -70,6 +70,9 @@ def check(prog, run):
 def _unit_axis_form(prog, fi, e, params, at=None):
     """classify an operand: returns (base param name, position of the unit axis, position of channel axis) or None"""
     x = astq.expr_at(fi, at, e) if at is not None else astq.expand(fi, e, stop=params)
+    if isinstance(x, ast.Call) and astq.callee_name(prog, fi, x) == "numpy.reshape" and len(x.args) == 2 and isinstance(x.args[0], ast.Name):
+        # function form: np.reshape(X, shape) == X.reshape(shape)
+        x = ast.Call(func=ast.Attribute(value=x.args[0], attr="reshape", ctx=ast.Load()), args=[x.args[1]], keywords=[])
     if isinstance(x, ast.Call) and isinstance(x.func, ast.Attribute) and x.func.attr == "reshape" and isinstance(x.func.value, ast.Name):
         args = x.args[0].elts if len(x.args) == 1 and isinstance(x.args[0], (ast.Tuple, ast.List)) else x.args
         ones = [i for i, a in enumerate(args) if isinstance(a, ast.Constant) and a.value == 1]
